@@ -32,8 +32,33 @@ REAL = ["2015-03-05 10:30:15", "March 5, 2015", "5 March 2015 10:30 PM", "Tue, 0
         "5000 years ago", "99999 days ago", "0 seconds ago", "a minute ago", "less than 1 minute ago"]
 
 
+SIGNS = ["-", "\u2212", "\u2013", "\u2014", "\u2010", "\u2011", "\ufe63", "\uff0d", "+", "\uff0b", "\u00b1", "~"]
+COLONS = [":", "\uff1a", "\u2236", "\ua789", ".", "h", "\u02d0"]
+DIGIT_SCRIPTS = ["0123456789", "\u0660\u0661\u0662\u0663\u0664\u0665\u0666\u0667\u0668\u0669", "\uff10\uff11\uff12\uff13\uff14\uff15\uff16\uff17\uff18\uff19",
+                 "\u0966\u0967\u0968\u0969\u096a\u096b\u096c\u096d\u096e\u096f"]
+
+
+def gate_string(rng):
+    """strings shaped to pass the ENTRY regexes of the individual parsers (epoch numbers of exactly 10 / 13 / 16 digits,
+    clock times, numeric offsets) but written with look-alike signs, colons and digits of other scripts"""
+    ds = rng.choice(DIGIT_SCRIPTS) if rng.random() < 0.4 else DIGIT_SCRIPTS[0]
+    num = lambda n: "".join(ds[rng.randrange(10)] for _ in range(n))      # noqa: E731
+    r = rng.random()
+    if r < 0.5:
+        body = rng.choice(["", "", rng.choice(SIGNS)]) + num(rng.choice([10, 13, 16, 9, 11, 12, 14, 17]))
+        if rng.random() < 0.4:
+            body += rng.choice([".", ",", " ", ". ", "\u066b"]) + num(rng.randint(1, 7))
+        return body
+    if r < 0.75:
+        c = rng.choice(COLONS)
+        return "%s%s%s%s" % (num(rng.randint(1, 2)), c, num(2), rng.choice(["", c + num(2), c + num(2) + rng.choice([".", ","]) + num(rng.randint(1, 7)), " pm", "am"]))
+    return "2015-03-05 10:30 %s%s%s%s%s" % (rng.choice(["", "UTC", "GMT", "utc "]), rng.choice(SIGNS), num(2), rng.choice(["", ":", "\uff1a"]), rng.choice(["", num(2)]))
+
+
 def gen_string(rng, maxlen=100):
     r = rng.random()
+    if r < 0.08:
+        return gate_string(rng)[:maxlen]
     if r < 0.25:        # token soup along the model's alphabets
         n = rng.randint(1, 7)
         parts = []
